@@ -1,7 +1,10 @@
 package symx
 
 import (
+	"go/token"
 	"syscall"
+
+	"golang.org/x/tools/go/ssa"
 )
 
 func init() {
@@ -17,4 +20,21 @@ func init() {
 	ex["(*internal/godebug.Setting).Value"] = func(fr *frame, a []value) value { return "" }
 	ex["(*internal/godebug.Setting).IncNonDefault"] = func(fr *frame, a []value) value { return nil }
 	ex["internal/cpu.Initialize"] = func(fr *frame, a []value) value { return nil }
+}
+
+func init() {
+	// errors.init uses reflectlite (unsafe) to build errorType, which only errors.As needs and
+	// errors.As is an intrinsic here: initialise the one other global by hand.
+	externals["errors.init"] = func(fr *frame, a []value) value {
+		pkg := fr.i.prog.ImportedPackage("errors")
+		if pkg == nil {
+			return nil
+		}
+		if g, ok := pkg.Members["ErrUnsupported"].(*ssa.Global); ok {
+			newFn := pkg.Func("New")
+			v := call(fr.i, fr, token.NoPos, newFn, []value{"unsupported operation"})
+			*fr.i.globalCell(g) = v
+		}
+		return nil
+	}
 }
